@@ -34,6 +34,8 @@ import (
 	tmproto "github.com/tendermint/tendermint/proto/tendermint/types"
 	dbm "github.com/tendermint/tm-db"
 	"google.golang.org/grpc"
+	"google.golang.org/grpc/codes"
+	"google.golang.org/grpc/status"
 	"pgregory.net/rapid"
 
 	pcmock "github.com/ovrclk/akash/provider/cluster/mocks"
@@ -54,6 +56,8 @@ type c09Chain struct {
 	mu  sync.Mutex
 	// when set, every chain lookup announces itself and waits until the schedule releases it
 	arrivals chan chan struct{}
+	// when set, every chain lookup fails the way an unreachable node does
+	down bool
 }
 
 func (c *c09Chain) Certificates(ctx context.Context, in *ctypes.QueryCertificatesRequest, _ ...grpc.CallOption) (*ctypes.QueryCertificatesResponse, error) {
@@ -64,6 +68,9 @@ func (c *c09Chain) Certificates(ctx context.Context, in *ctypes.QueryCertificate
 	}
 	c.mu.Lock()
 	defer c.mu.Unlock()
+	if c.down {
+		return nil, status.Error(codes.Unavailable, "verif: chain node unreachable")
+	}
 	return c.k.Querier().Certificates(sdk.WrapSDKContext(c.ctx), in)
 }
 
